@@ -81,6 +81,50 @@ def _plain(x: Any) -> Any:
     return repr(x)
 
 
+class _Isolation:
+    """Every explored path is one independent history: module-level and class-level containers of the code under test
+    (caches, registries, memo tables) are put back, in place, to their content at the start of the obligation before
+    each path.  Otherwise state left behind by one path leaks into the next, and a counterexample found there would
+    not be the history its arguments describe (it would not reproduce in the fresh replay process)."""
+
+    def __init__(self, prefix: str = "semantiva"):
+        import sys
+
+        self.items = []
+        seen = set()
+        for mname, mod in list(sys.modules.items()):
+            if mod is None or not (mname == prefix or mname.startswith(prefix + ".")):
+                continue
+            holders = [mod]
+            for v in list(vars(mod).values()):
+                if isinstance(v, type) and getattr(v, "__module__", None) == mname:
+                    holders.append(v)
+            for h in holders:
+                for name, val in list(vars(h).items()):
+                    if name.startswith("__") or id(val) in seen:
+                        continue
+                    if type(val) in (dict, list, set):
+                        seen.add(id(val))
+                        self.items.append((val, type(val)(val)))
+
+    def restore(self) -> None:
+        for live, saved in self.items:
+            try:
+                if type(live) is list:
+                    if len(live) != len(saved) or any(a is not b for a, b in zip(live, saved)):
+                        live[:] = saved
+                elif type(live) is dict:
+                    if len(live) != len(saved) or any(k not in live or live[k] is not v for k, v in saved.items()):
+                        live.clear()
+                        live.update(saved)
+                else:
+                    if live != saved:
+                        live.clear()
+                        live.update(saved)
+            except Exception:  # noqa: BLE001 - isolation is best effort
+                pass
+
+
 def explore_with_known(body, known_fps, budget_s=120.0, per_path_timeout=30.0, max_paths=100000):
     return explore(body, budget_s=budget_s, per_path_timeout=per_path_timeout, max_paths=max_paths, known_fps=known_fps)
 
@@ -123,7 +167,12 @@ def explore(
     known_seen = set()
     exhausted = False
     refuted = False
+    import os as _os
+
+    iso = _Isolation() if _os.environ.get("VERIF_NO_ISOLATION") != "1" else None
     for i in range(1, max_paths + 1):
+        if iso is not None:
+            iso.restore()
         itr_start = time.process_time()
         if itr_start > p_start + budget_s:
             res["detail"] = "time budget %.0fs exhausted after %d paths" % (budget_s, i - 1)
